@@ -777,6 +777,7 @@ type Seed struct {
 	Data    []byte
 	Entries []*Entry
 	NoPairs bool // exclude this seed from the thorough-tier fault pairs
+	Light   bool // only the basic single-fault catalogue (12 byte values), no pairs, no garbage tails
 }
 
 // StrGroup is one all-strings enumeration: every string over Alpha up to MaxLen at each entry.
@@ -898,6 +899,9 @@ func (p *Plan) Run(r *vr.Report) {
 			if s.NoPairs {
 				opt.Pairs = false
 			}
+			if s.Light {
+				opt = MutOpt{}
+			}
 			Mutants(s.Data, opt, ww, W, func(m []byte, note string) {
 				for _, e := range s.Entries {
 					o := c.Check(e, m, s.Name+" "+note)
@@ -906,14 +910,14 @@ func (p *Plan) Run(r *vr.Report) {
 					}
 				}
 			})
-			if p.TailFull > 0 {
+			if p.TailFull > 0 && !s.Light {
 				PrefixTails(s.Data, FullAlphabet(), p.TailFull, ww, W, func(m []byte, note string) {
 					for _, e := range s.Entries {
 						c.Check(e, m, s.Name+" "+note)
 					}
 				})
 			}
-			if p.TailBoundary > p.TailFull {
+			if p.TailBoundary > p.TailFull && !s.Light {
 				PrefixTails(s.Data, Boundary, p.TailBoundary, ww, W, func(m []byte, note string) {
 					if len(note) > 0 && p.TailFull > 0 {
 						// tails of length <= TailFull were covered with the full alphabet
